@@ -538,3 +538,6 @@ def b_tables(rng, tier):
         except Exception as ex:
             ok, det = False, repr(ex)
         yield (("smooth", round(x0, 4)), ok, det)
+
+
+P.frame_check()
